@@ -111,7 +111,7 @@ def mutate_everything(r):
 def plan(tier, seed):
     if tier == "quick":
         return [{"n": 30, "timeout_s": 1800} for _ in range(16)]
-    return [{"n": 3000, "timeout_s": 14400} for _ in range(16)]
+    return [{"n": 3000, "timeout_s": 14400} for _ in range(16)] + [{"mode": "suite", "n": 0, "timeout_s": 3600}]
 
 
 def defaults_table(mods):
@@ -143,6 +143,12 @@ def defaults_table(mods):
 
 
 def run_shard(spec, ctx):
+    if spec.get("mode") == "suite":
+        from ..worker import import_target
+        from ..suite import run_under_monitors
+        import_target()
+        run_under_monitors(ctx, "C14", timeout_s=spec["timeout_s"] - 120)
+        return
     bm = armlib.load_bm()
     tm, fsr, Wrench = bm["tm"], bm["fsr"], bm["Wrench"]
     from basic_robotics.general import Screw
@@ -250,10 +256,16 @@ def run_shard(spec, ctx):
             ("closeArcGap", lambda x, y: fsr.closeArcGap(x, y, 0.3), [a, b]), ("IKPath", lambda x, y: fsr.IKPath(x, y, 7), [a, b]),
             ("mirror", fsr.mirror, [a, b]), ("lookAt", fsr.lookAt, [a, b]), ("poseError", fsr.poseError, [a, b]), ("geometricError", fsr.geometricError, [a, b]),
             ("twistToGoal", fsr.twistToGoal, [a, b]), ("adjustRotationToMidpoint", fsr.adjustRotationToMidpoint, [a, b, c]),
+            ("adjustRotationToMidpoint(mode=1)", lambda x, y, z: fsr.adjustRotationToMidpoint(x, y, z, 1), [a, b, c]),
             ("planeFromThreePoints", fsr.planeFromThreePoints, [a, b, c]), ("angleBetween", fsr.angleBetween, [a, b, c]),
             ("getUnitVec", fsr.getUnitVec, [a, b]), ("twistFromTransform", fsr.twistFromTransform, [a]), ("transformFromTwist", fsr.transformFromTwist, [arr6]),
             ("transformByVector", fsr.transformByVector, [a, arr6[:3].copy()]), ("chainJacobian", fsr.chainJacobian, [gen.screw_axes(rng, 4), rng.normal(size=4)]),
-            ("TAAtoTM", fsr.TAAtoTM, [arr6.reshape((6, 1)).copy()]), ("makeWrench", lambda p, v: fsr.makeWrench(p, 3.0, v), [a, arr6[:3].copy()]),
+            ("TAAtoTM", fsr.TAAtoTM, [arr6.reshape((6, 1)).copy()]), ("TMtoTAA", fsr.TMtoTAA, [M4.copy()]),
+            ("transformWrenchFrame", fsr.transformWrenchFrame, [S(Wrench), a, b]), ("planePointsFromTransform", fsr.planePointsFromTransform, [a]),
+            ("getSurfaceNormal", fsr.getSurfaceNormal, [[a, b, c]]), ("getSurfaceNormal(center)", fsr.getSurfaceNormal, [[a, b, c], T()]),
+            ("twistToScrew", fsr.twistToScrew, [arr6.reshape((6, 1)).copy()]), ("normalizeTwist", fsr.normalizeTwist, [arr6.copy()]),
+            ("getUnitVec(dist)", lambda x, y: fsr.getUnitVec(x, y, 2.5, True), [a, b]),
+            ("numericalJacobian", lambda x: fsr.numericalJacobian(lambda v: np.sin(v) * 2, x, 1e-4), [arr6.copy()]), ("makeWrench", lambda p, v: fsr.makeWrench(p, 3.0, v), [a, arr6[:3].copy()]),
         ]:
             apply(name, fn, ops, "helper", "helper")
 
@@ -364,4 +376,8 @@ def run_shard(spec, ctx):
 
 
 def replay(case, ctx):
+    if "suite_test" in case:
+        from ..suite import run_under_monitors
+        run_under_monitors(ctx, "C14", select=[case["suite_test"]])
+        return
     ctx.inconc("C14 cases are regenerated from the seed: re-run the tier with the same VERIF_SEED")
